@@ -136,6 +136,17 @@ fn random_zone(rng: &mut Rng) -> Tz {
     *rng.pick(&chrono_tz::TZ_VARIANTS[..])
 }
 
+/// a zone (other than ctx) that itself has a jump within two hours of `at`, if a few random draws find one
+fn observer_jumping_near(rng: &mut Rng, ctx: Tz, at: i64) -> Option<Tz> {
+    for _ in 0..12 {
+        let z = random_zone(rng);
+        if z != ctx && !ZoneSpec::Iana(z).jumps_between(at - 7200, at + 7200).is_empty() {
+            return Some(z);
+        }
+    }
+    None
+}
+
 fn observer_for(rng: &mut Rng, ctx: Tz) -> Tz {
     match rng.below(8) {
         0 | 1 => ctx,
@@ -148,6 +159,14 @@ fn observer_for(rng: &mut Rng, ctx: Tz) -> Tz {
 
 fn observe(rng: &mut Rng, size: i64) -> Step {
     let size = size.abs().max(60);
+    if rng.chance(1, 6) {
+        // windows whose end is placed relative to the jump: exactly at it, a second before / after, after the repeated period
+        let delta = *rng.pick(&[0, 0, -1, 1, -60, 60, size, size - 1, size + 1, size / 2]);
+        return Step::ObserveUntilJump { delta, take: rng.range(1, 8) as u32 };
+    }
+    if rng.chance(1, 40) {
+        return Step::Observe { window: 0, take: 1 };
+    }
     let window = *rng.pick(&[1, 30, 59, 60, 61, 90, size / 2, size - 1, size, size + 1, 2 * size, 3600, 7200, 86400, 3 * 86400, 40 * 86400]);
     Step::Observe { window: window.max(1), take: rng.range(1, 8) as u32 }
 }
@@ -193,10 +212,16 @@ pub fn scenario_around(rng: &mut Rng, tz: Tz, j: Jump) -> Scenario {
             12 => Step::Advance(rng.range(60, 7200)),
             _ => Step::Goto { utc: j.at + rng.range(-size, size), nanos: 0 },
         };
+        // one Goto in eight carries a sub-second part
+        let s = match s {
+            Step::Goto { utc, nanos: 0 } if rng.chance(1, 8) => Step::Goto { utc, nanos: *rng.pick(&[1, 500_000_000, 999_999_999]) },
+            other => other,
+        };
         steps.push(s);
         steps.push(observe(rng, size));
     }
-    Scenario { zone: tz.name().to_string(), observer: observer_for(rng, tz).name().to_string(), expr, holidays, jump: Some((j.at, j.before, j.after)), start_utc, steps }
+    let observer = if rng.chance(1, 6) { observer_jumping_near(rng, tz, j.at).unwrap_or_else(|| observer_for(rng, tz)) } else { observer_for(rng, tz) };
+    Scenario { zone: tz.name().to_string(), observer: observer.name().to_string(), expr, holidays, jump: Some((j.at, j.before, j.after)), start_utc, steps }
 }
 
 fn gen_jump_run(rng: &mut Rng) -> Scenario {
